@@ -38,6 +38,10 @@ class _Break(Exception):
     pass
 
 
+class _Abort(Exception):
+    """the replay has recorded a fault and reached a point that depends on the faulty value: stop, the fault is the finding"""
+
+
 class _Continue(Exception):
     pass
 
@@ -62,6 +66,9 @@ class Interp:
         self.faults = []
         self.this = {}          # scalar fields of the object
         self._tmp = 0
+        self._alias = {}
+        self._keep = []         # keeps records alive so that id()-based region names stay unique
+        self.cur_obj = None
 
     # ---- memory ------------------------------------------------------------
     def fault(self, f, st, what):
@@ -98,25 +105,130 @@ class Interp:
             return None
         return reg, p.o
 
+    # ---- records -----------------------------------------------------------
+    def canon(self, rec, name):
+        """members of an anonymous union share one slot"""
+        cls = rec.get('__cls__') if isinstance(rec, dict) else None
+        if cls is None:
+            return name
+        key = (cls, name)
+        if key not in self._alias:
+            out = name
+            for fd in self.prog.classes.get(cls, {}).get('fields', ()):
+                if fd.get('n') == '' and 'union' in (fd.get('t') or ''):
+                    for ucls in (cls + '::(anonymous)',):
+                        if any(m.get('n') == name for m in self.prog.classes.get(ucls, {}).get('fields', ())):
+                            out = '#union%s' % fd.get('fd')
+            self._alias[key] = out
+        return self._alias[key]
+
+    def new_record(self, cls):
+        c = self.prog.classes.get(cls)
+        if c is None:
+            raise AnalysisBroken('class %s is not known to the replay' % cls)
+        rec = {'__cls__': cls}
+        for fd in c.get('fields', ()):
+            ct = fd.get('ct') or ''
+            if fd.get('n') == '' and 'union' in (fd.get('t') or ''):
+                first = (self.prog.classes.get(cls + '::(anonymous)', {}).get('fields') or [{}])[0]
+                rec['#union%s' % fd.get('fd')] = (first.get('initv') or 0) if first.get('hasinit') else 'uninit'
+            elif ct.startswith('std::vector<') or ct.startswith('std::deque<') or ct.startswith('std::list<'):
+                rec[fd['n']] = []
+            elif 'initv_hex' in fd:
+                rec[fd['n']] = int(fd['initv_hex'], 16)
+            elif fd.get('hasinit') and 'initv' in fd:
+                rec[fd['n']] = fd['initv'] if fd['initv'] is not None else 0
+            elif ct in self.prog.classes:
+                rec[fd['n']] = self.new_record(ct)
+            else:
+                rec[fd['n']] = 'uninit'
+        return rec
+
+    def ref(self, rec):
+        name = 'rec@%d' % id(rec)
+        self.mem[name] = rec
+        return P(name, 0)
+
+    def record_of(self, v):
+        if isinstance(v, P) and isinstance(self.mem.get(v.r), dict):
+            return self.mem[v.r]
+        if isinstance(v, dict):
+            return v
+        return None
+
+    def construct(self, f, st, env):
+        cls = st.get('ctor') or ''
+        args = [self.ev(f, a, env) for a in st.get('args', [])]
+        if cls not in self.prog.classes:
+            return args[0] if len(args) == 1 else None
+        if len(args) == 1 and self.record_of(args[0]) is not None and self.record_of(args[0]).get('__cls__') == cls:
+            cp = dict(self.record_of(args[0]))       # copy / move construction
+            self._keep.append(cp)
+            return self.ref(cp)
+        rec = self.new_record(cls)
+        self._keep.append(rec)
+        tg = [g for g in self.prog.by_usr.get(st.get('usr'), ()) if g.d.get('ctor')]
+        if tg:
+            g = tg[0]
+            cenv = {p_['d']: wrap(a, p_.get('ct')) for p_, a in zip(g.params, args)}
+            saved, self.this = self.this, rec
+            try:
+                for ini in g.d.get('inits', ()):
+                    if ini.get('written') and ini.get('init') is not None:
+                        rec[self.canon(rec, ini['field'])] = self.ev(g, ini['init'], cenv)
+                if g.body is not None:
+                    try:
+                        self.run(g, g.body, cenv)
+                    except _Return:
+                        pass
+            finally:
+                self.this = saved
+        elif args:
+            raise AnalysisBroken('%s: constructor of %s with arguments has no body the replay can follow (%s)' % (f.short, cls, f.loc(st['i'])))
+        return self.ref(rec)
+
     # ---- calls -------------------------------------------------------------
-    def call(self, f, args, this=True):
+    def call(self, f, args, this=None):
         env = {}
         for p_, a in zip(f.params, args):
             env[p_['d']] = wrap(a, p_.get('ct'))
+        saved = self.this
+        if this is not None:
+            self.this = this
+        self._depth = getattr(self, '_depth', 0) + 1
         try:
             self.run(f, f.body, env)
         except _Return as r:
             return r.v
+        except _Abort:
+            if self._depth > 1:
+                raise
+            return None
+        finally:
+            self._depth -= 1
+            self.this = saved
         return None
 
     def _call(self, f, st, env):
         name = (st.get('fn') or (st.get('callee') or '').split('<')[0].split('::')[-1]).split('<')[0]
         args = [self.ev(f, a, env) for a in st.get('args', [])]
+        objv = None
+        if 'obj' in st and (f.s(f.strip_casts(st['obj'])) or {}).get('k') != 'CXXThisExpr':
+            objv = self.ev(f, st['obj'], env)
+        elif st['k'] == 'CXXOperatorCallExpr' and 'obj' not in st and args:
+            objv = args[0]
         if name in self.hooks:
+            self.cur_obj = objv
             return self.hooks[name](self, f, st, args)
         tg = [g for g in self.prog.by_usr.get(st.get('usr'), ()) if not g.parent_usr and g.body is not None]
-        if tg and (name in self.inline):
-            return self.call(tg[0], args)
+        if tg and (name in self.inline or '*' in self.inline):
+            g = tg[0]
+            this = self.record_of(objv)
+            if objv is not None and this is None:
+                raise AnalysisBroken('%s: member call %s on an object the replay does not hold (%s)' % (f.short, name, f.loc(st['i'])))
+            if st['k'] == 'CXXOperatorCallExpr' and 'obj' not in st and len(args) == len(g.params) + 1:
+                args = args[1:]
+            return self.call(g, args, this=this)
         raise AnalysisBroken('%s: call of %s at %s is neither a hook nor inlined' % (f.short, name or '?', f.loc(st['i'])))
 
     # ---- statements ----------------------------------------------------------
@@ -215,6 +327,8 @@ class Interp:
         if isinstance(v, P):
             return True
         if not isinstance(v, int):
+            if self.faults:
+                raise _Abort()
             raise AnalysisBroken('%s: the condition at %s depends on a value the replay keeps abstract' % (f.short, f.loc(e)))
         return v != 0
 
@@ -231,17 +345,11 @@ class Interp:
             base = f.s(f.strip_casts(st['ch'][0])) if st['ch'] else None
             if base is None or base['k'] == 'CXXThisExpr':
                 return ('field', st['n'])
-            # a field of a record held in a dict-shaped region: ptr->name, or (record lvalue).name
-            if st.get('arrow'):
-                p = self.ev(f, st['ch'][0], env)
-                if isinstance(p, P) and isinstance(self.mem.get(p.r), dict):
-                    return ('dict', self.mem[p.r], st['n'])
-            else:
-                b = self.lv(f, st['ch'][0], env)
-                if b[0] == 'dict' and isinstance(b[1].get(b[2]), dict):
-                    return ('dict', b[1][b[2]], st['n'])
-                if b[0] == 'field' and isinstance(self.this.get(b[1]), dict):
-                    return ('dict', self.this[b[1]], st['n'])
+            rec = self.rec_of_expr(f, st['ch'][0], env, st.get('arrow'))
+            if rec is not None:
+                return ('dict', rec, st['n'])
+            if self.faults:
+                raise _Abort()
         if k == 'ArraySubscriptExpr':
             b, i = self.ev(f, st['ch'][0], env), self.ev(f, st['ch'][1], env)
             if isinstance(i, P):
@@ -261,6 +369,39 @@ class Interp:
             return self.lv(f, st['ch'][0], env)
         raise AnalysisBroken('%s: unsupported lvalue %s at %s' % (f.short, k, f.loc(e)))
 
+    def rec_of_expr(self, f, e, env, arrow=False):
+        """the record an expression designates (an lvalue of class type, or with arrow a pointer to one); None when the replay holds none"""
+        x = f.s(f.strip_casts(e))
+        if x is None:
+            return None
+        if arrow:
+            return self.record_of(self.ev(f, e, env))
+        if x['k'] == 'CXXThisExpr':
+            return self.this
+        if x['k'] == 'MemberExpr' and x.get('n') == '':
+            # the anonymous struct/union member: its fields live in the enclosing record
+            b = f.s(f.strip_casts(x['ch'][0])) if x.get('ch') else None
+            if b is None or b['k'] == 'CXXThisExpr':
+                return self.this
+            return self.rec_of_expr(f, x['ch'][0], env, x.get('arrow'))
+        if x['k'] == 'UnaryOperator' and x.get('op') == '*':
+            return self.record_of(self.ev(f, x['ch'][0], env))
+        try:
+            loc = self.lv(f, x['i'], env)
+        except AnalysisBroken:
+            return self.record_of(self.ev(f, e, env))
+        if loc[0] == 'var':
+            return self.record_of(env.get(loc[1]))
+        if loc[0] == 'field':
+            v = self.this.get(self.canon(self.this, loc[1]))
+            return v if isinstance(v, dict) else self.record_of(v)
+        if loc[0] == 'dict':
+            v = loc[1].get(self.canon(loc[1], loc[2]))
+            return v if isinstance(v, dict) else self.record_of(v)
+        if loc[0] == 'mem':
+            return self.record_of(self.load(f, x, loc[1]))
+        return None
+
     def read(self, f, st, loc, env):
         if loc[0] == 'var':
             if loc[1] not in env:
@@ -269,24 +410,27 @@ class Interp:
         if loc[0] == 'field':
             if ('this.' + loc[1]) in self.mem:
                 return P('this.' + loc[1], 0)
-            return self.this.get(loc[1])
+            v = self.this.get(self.canon(self.this, loc[1]))
+            return self.ref(v) if isinstance(v, dict) and v is not self.this else v
         if loc[0] == 'dep':
             return loc[1]
         if loc[0] == 'dict':
-            if loc[2] not in loc[1]:
+            key = self.canon(loc[1], loc[2])
+            if key not in loc[1]:
                 raise AnalysisBroken('%s: field %s is not part of the replayed record (%s)' % (f.short, loc[2], f.loc(st['i'])))
-            return loc[1][loc[2]]
+            v = loc[1][key]
+            return self.ref(v) if isinstance(v, dict) else v
         return self.load(f, st, loc[1])
 
     def write(self, f, st, loc, v, env):
         if loc[0] == 'var':
             env[loc[1]] = v
         elif loc[0] == 'field':
-            self.this[loc[1]] = v
+            self.this[self.canon(self.this, loc[1])] = v
         elif loc[0] == 'dep':
             raise AnalysisBroken('%s: store at an abstract index (%s)' % (f.short, f.loc(st['i'])))
         elif loc[0] == 'dict':
-            loc[1][loc[2]] = v
+            loc[1][self.canon(loc[1], loc[2])] = v
         else:
             self.store(f, st, loc[1], v)
 
@@ -390,9 +534,8 @@ class Interp:
             return wrap(self.arith(f, st, op, a, b), st.get('ct') or st.get('t'))
         if k in ('CXXNullPtrLiteralExpr', 'GNUNullExpr'):
             return 0
-        if k == 'CXXConstructExpr':
-            a = st.get('args') or []
-            return self.ev(f, a[0], env) if len(a) == 1 else None
+        if k in ('CXXConstructExpr', 'CXXTemporaryObjectExpr'):
+            return self.construct(f, st, env)
         if k in q.CALL_KINDS:
             return self._call(f, st, env)
         raise AnalysisBroken('%s: unsupported expression %s at %s' % (f.short, k, f.loc(e)))
@@ -449,3 +592,53 @@ def h_memset(it, f, st, args):
     if d_ is not None:
         d_[0][d_[1]:d_[1] + n] = [v & 0xff if isinstance(v, int) else v] * n
     return dst
+
+
+# ---- std::vector of records, numeric_limits ---------------------------------------------------------------------
+
+def _vec(it, f, st):
+    v = it.cur_obj
+    if not isinstance(v, list):
+        raise AnalysisBroken('%s: container operation on something the replay does not hold as a sequence (%s)' % (f.short, f.loc(st['i'])))
+    return v
+
+
+def _elem(it, f, st, v, i, what, throws):
+    if not isinstance(i, int):
+        raise AnalysisBroken('%s: %s with an index the replay keeps abstract (%s)' % (f.short, what, f.loc(st['i'])))
+    if not (0 <= i < len(v)):
+        it.fault(f, st, '%s(%d) on a sequence of %d element(s): %s' % (what, i, len(v), 'std::out_of_range is thrown' if throws else 'undefined behaviour (stale or foreign memory is read)'))
+        return None
+    return it.ref(v[i]) if isinstance(v[i], dict) else v[i]
+
+
+def _push(it, f, st, a):
+    v = _vec(it, f, st)
+    r = it.record_of(a[0]) if a else None
+    v.append(dict(r) if r is not None else (a[0] if a else None))
+
+
+def _numeric_limit(which):
+    def h(it, f, st, a):
+        w = WIDTH.get((st.get('t') or '').replace('const ', '').strip()) or WIDTH.get((st.get('ct') or '').strip())
+        if w is None:
+            raise AnalysisBroken('%s: numeric_limits of a type the replay does not know (%s)' % (f.short, f.loc(st['i'])))
+        if w > 0:
+            return (1 << w) - 1 if which == 'max' else 0
+        return (1 << (-w - 1)) - 1 if which == 'max' else -(1 << (-w - 1))
+    return h
+
+
+VECTOR_HOOKS = {
+    'at': lambda it, f, st, a: _elem(it, f, st, _vec(it, f, st), a[-1], 'at', True),
+    'operator[]': lambda it, f, st, a: _elem(it, f, st, _vec(it, f, st), a[-1], 'operator[]', False),
+    'size': lambda it, f, st, a: len(_vec(it, f, st)),
+    'empty': lambda it, f, st, a: int(not _vec(it, f, st)),
+    'clear': lambda it, f, st, a: _vec(it, f, st).clear(),
+    'reserve': lambda it, f, st, a: None,
+    'shrink_to_fit': lambda it, f, st, a: None,
+    'push_back': _push,
+    'emplace_back': _push,
+    'max': _numeric_limit('max'),
+    'min': _numeric_limit('min'),
+}
